@@ -126,6 +126,9 @@ type BlockTrace struct {
 	Txs     []*TxTrace
 	Results []store.ExecuteResult // Results[i] = execution of the first i transactions
 	Problem string                // prefix-consistency problem found while tracing (determinism/isolation)
+	Panic   string                // a native handler panicked while executing transaction PanicTx (the node would crash)
+	PanicTx int
+	PanicP  *PendingTx
 }
 
 func withTxs(blk *types.Block, txs []*types.Transaction) *types.Block {
@@ -146,7 +149,16 @@ func (s *Sim) Trace(n *chain.Node, blk *types.Block, pend []*PendingTx) (*BlockT
 	}
 	k := len(blk.Transactions)
 	for i := 0; i <= k; i++ {
-		res, err := n.L.ExecuteBlock(withTxs(blk, blk.Transactions[:i]))
+		res, err, pan := safeExecute(n, withTxs(blk, blk.Transactions[:i]))
+		if pan != nil {
+			// a native handler panicked: in the node this takes the process down while it executes the
+			// block. The transaction that did it is the last one of this prefix.
+			bt.Panic, bt.PanicTx = fmt.Sprint(pan), i-1
+			if i > 0 {
+				bt.PanicP = byHash[blk.Transactions[i-1].Hash()]
+			}
+			return bt, nil
+		}
 		if err != nil {
 			return nil, fmt.Errorf("prefix %d: %v", i, err)
 		}
@@ -182,4 +194,17 @@ func (s *Sim) Trace(n *chain.Node, blk *types.Block, pend []*PendingTx) (*BlockT
 		prev = cur
 	}
 	return bt, nil
+}
+
+func safeExecute(n *chain.Node, blk *types.Block) (res store.ExecuteResult, err error, pan interface{}) {
+	defer func() {
+		if e := recover(); e != nil {
+			if _, crash := e.(crashSentinel); crash {
+				panic(e) // simulated process crash (C12), not a handler panic
+			}
+			pan = e
+		}
+	}()
+	res, err = n.L.ExecuteBlock(blk)
+	return
 }
